@@ -8,8 +8,9 @@
                              the real parser's discipline and the transparency of every memoised
                              method are audited on the AST objects the renderers used;
   SAMPLED only               process-level behaviour of CPython: sha256 of all outputs under other
-                             PYTHONHASHSEEDs, cwd, relative/absolute paths, outdir, -q, repeated
-                             and interleaved in-process compilation.
+                             PYTHONHASHSEEDs, cwd (incl. working directories that hold decoy files under the
+                             imports' relative names), relative/absolute paths, outdir and what the outdir
+                             held before the run, -q, repeated and interleaved in-process compilation.
 """
 from __future__ import annotations
 
@@ -17,6 +18,7 @@ import glob
 import json
 import os
 import random
+import re
 from typing import Any, Dict, List, Optional, Tuple
 
 import pyside
@@ -276,6 +278,122 @@ def run_tables(ck: Check) -> int:
 # ------------------------------------------------------------------------------------------------
 
 PATH_VARIANTS = ["rel", "cwd", "dots", "lint", "copy", "nooutdir"]
+# what the output directory holds before the run: nothing / empty files / a shorter earlier revision (a line-wise
+# prefix of the new output) / a longer later revision / garbage under the output's names / the very same output
+PRE_VARIANTS = ["pre_empty", "pre_prefix", "pre_longer", "pre_garbage", "pre_same"]
+VARIANT_DOC = {
+    "seed": "fresh process, another PYTHONHASHSEED",
+    "rel": "cwd = parent directory (which also holds DECOY files under the imports' relative names), relative input "
+           "path, relative outdir",
+    "cwd": "cwd = /", "dots": "input path written with ./ and ../ segments, cwd = parent directory (with decoys)",
+    "lint": "without -q", "copy": "the same files under another absolute path",
+    "nooutdir": "no outdir argument, cwd = a directory with decoys",
+    "decoycwd": "cwd = an unrelated directory that contains DIFFERENT files under the relative names the schema imports",
+    "pre_empty": "the output directory already holds EMPTY files with the outputs' names",
+    "pre_prefix": "the output directory already holds the first 2/3 of the lines of each output (an earlier, shorter "
+                  "revision)",
+    "pre_longer": "the output directory already holds each output plus extra trailing lines (a later revision)",
+    "pre_garbage": "the output directory already holds garbage under the outputs' names",
+    "pre_same": "the output directory already holds exactly the expected outputs",
+}
+IMPORT_RE = re.compile(r'^[ \t]*import\s+(?:[A-Za-z_]\w*\s+)?"([^"\n]+)"', re.M)
+
+
+def _widen(text: str) -> str:
+    """A different but still valid version of a schema file: every integer width changed by one."""
+    def w(m):
+        n = int(m.group(2))
+        return f"{m.group(1)}{n + 1 if n < 64 else n - 1}"
+    t2 = re.sub(r"\b(uint|int)(\d+)\b", w, text)
+    if t2 == text:
+        t2 = re.sub(r"\bbool\b", "uint2", text)
+    return t2
+
+
+def decoys_for(files: Dict[str, str]) -> Dict[str, str]:
+    """For every relative import "p" written in any file of the schema: a DIFFERENT file (widths changed) to be
+    placed at <some working directory>/p.  A compiler that resolves imports against the cwd picks it up."""
+    out: Dict[str, str] = {}
+    for key, text in files.items():
+        base = os.path.dirname(key)
+        for p in IMPORT_RE.findall(text):
+            if os.path.isabs(p):
+                continue
+            target = os.path.normpath(os.path.join(base, p))
+            rel = os.path.normpath(p)
+            if target in files and not rel.startswith(".."):
+                d = _widen(files[target])
+                if d != files[target]:
+                    out[rel] = d
+    return out
+
+
+def gen_import_graph(rng: random.Random, dup: bool) -> Tuple[Dict[str, str], str]:
+    """A hub file importing 3-5 files that live in DIFFERENT directories; with `dup`, two of them (in different
+    directories, imported under different `as` names) have the same file name and declare the same proto name, so
+    they map to the same output/header name; one imported file imports a sibling of its own directory."""
+    files: Dict[str, str] = {}
+    k = rng.randint(3, 5)
+    dirs = ["", "v1", "v2", "lib", "lib/deep", "old"]
+    widths = [2, 3, 5, 7, 9, 12, 13, 16, 24, 31, 32, 40, 63]
+    letters = "abcdefghijklmnopqrstuvwxyz"
+    tagc = [0]
+
+    def tag() -> str:
+        tagc[0] += 1
+        return letters[rng.randrange(26)] + letters[rng.randrange(26)] + str(tagc[0])
+
+    def leaf_text(proto: str, t: str, extra_import: str = "", extra_field: str = "") -> str:
+        ew = rng.choice([2, 3, 4, 8])
+        vals = sorted(rng.sample(range(1, 2 ** ew), k=min(2, 2 ** ew - 1)))
+        txt = f"proto {proto}\n\n{extra_import}"
+        txt += f"enum Kind{t} : uint{ew} {{\n    KIND_{t.upper()}_NONE = 0\n"
+        for i, v in enumerate(vals):
+            txt += f"    KIND_{t.upper()}_V{i} = {v}\n"
+        txt += "}\n\n"
+        txt += f"message Msg{t} {{\n    uint{rng.choice(widths)} x = 1\n    Kind{t} kind = 2\n"
+        txt += f"    int{rng.choice(widths)} y = {rng.randint(3, 9)}\n{extra_field}}}\n"
+        return txt
+
+    entries: List[Tuple[Optional[str], str, str, str]] = []      # (as name, relative path, proto name, type name)
+    dup_at = sorted(rng.sample(range(k), 2)) if dup else []
+    dup_dirs = rng.sample([d for d in dirs if d], 2) if dup else []
+    shared = "shared" + letters[rng.randrange(26)]
+    used_paths = set()
+    for i in range(k):
+        t = tag()
+        if i in dup_at:
+            dd = dup_dirs[dup_at.index(i)]
+            rel, proto, as_name = f"{dd}/{shared}.bitproto", shared, f"s{dup_at.index(i) + 1}"
+        else:
+            dd = rng.choice(dirs)
+            proto = "leaf" + t
+            rel = (dd + "/" if dd else "") + proto + ".bitproto"
+            as_name = rng.choice([None, None, "q" + t])
+        extra_import = extra_field = ""
+        if dd and rng.random() < 0.6:
+            # a sibling in the imported file's own directory, imported by its bare name
+            bt = tag()
+            bproto = "base" + bt
+            files[f"{dd}/{bproto}.bitproto"] = leaf_text(bproto, bt)
+            extra_import = f'import "{bproto}.bitproto"\n\n'
+            extra_field = f"    {bproto}.Msg{bt} base = 12\n"
+        files[rel] = leaf_text(proto, t, extra_import, extra_field)
+        used_paths.add(rel)
+        entries.append((as_name, rel, proto, f"Msg{t}"))
+    hub = "hub" + letters[rng.randrange(26)] + letters[rng.randrange(26)]
+    txt = f"proto {hub}\n\n"
+    for as_name, rel, _proto, _t in entries:
+        txt += f'import {as_name + " " if as_name else ""}"{rel}"\n'
+    ext = "'" if rng.random() < 0.3 else ""
+    txt += f"\nmessage Hub{ext} {{\n"
+    nums = rng.sample(range(1, 40), k=len(entries) + 2)
+    for (as_name, _rel, proto, t), n in zip(entries, nums):
+        ref = f"{as_name or proto}.{t}"
+        txt += f"    {ref}{'[2]' if rng.random() < 0.3 else ''} f{n} = {n}\n"
+    txt += f"    uint{rng.choice(widths)} own = {nums[-2]}\n    bool last = {nums[-1]}\n}}\n"
+    files[hub + ".bitproto"] = txt
+    return files, hub + ".bitproto"
 
 
 def repo_schema_sets() -> List[Tuple[str, Dict[str, str], str]]:
@@ -314,11 +432,20 @@ def run_process_level(ck: Check, sets: List[Tuple[str, Dict[str, str], str]], nv
     for i, (label, files, main) in enumerate(sets):
         rng = random.Random(f"C18:{ck.seed}:fresh:{i}")
         tg = targets_for(files)
+        decoys = decoys_for(files)
+        graph = label.startswith("graph#") or "import" in label
+        full = bool(ck.replay_file) or not ck.quick
+        # several hash seeds where a hash-ordered container is most likely to matter (import graphs);
+        # quick tier: one path variant + one outdir-content variant (+ the decoy cwd when the schema has relative
+        # imports) on two of the targets only
+        nseeds = 4 if full else (3 if graph else 1)
+        variants = (PATH_VARIANTS + PRE_VARIANTS if full else
+                    rng.sample(PATH_VARIANTS, k=min(max(1, nvariants - 1), len(PATH_VARIANTS))) +
+                    rng.sample(PRE_VARIANTS[:4], k=1)) + (["decoycwd"] if decoys else [])
         jobs.append(dict(kind="fresh", id=i, dir=os.path.join(ck.dir, f"f{i}"), files=files, main=main,
-                         targets=tg, seeds=[rng.randrange(1, 2 ** 32)],
-                         variants=rng.sample(PATH_VARIANTS, k=min(nvariants, len(PATH_VARIANTS))),
-                         # quick tier: the path/cwd/outdir/-q variants on two of the targets only
-                         variant_targets=(sorted(rng.sample(range(len(tg)), k=2)) if ck.quick else None)))
+                         targets=tg, seeds=[rng.randrange(1, 2 ** 32) for _ in range(nseeds)], decoys=decoys,
+                         variants=variants,
+                         variant_targets=(None if full else sorted(rng.sample(range(len(tg)), k=2)))))
     res = run_workers("run_det.py", jobs, chunk=1, timeout=900)
     _t(ck, "fresh_processes")
     stats = dict(schemas=len(sets), compilations=0, outputs=0, ok_targets=0, failing_targets=0, inproc_steps=0,
@@ -340,7 +467,9 @@ def run_process_level(ck: Check, sets: List[Tuple[str, Dict[str, str], str]], nv
                 ck.violation(
                     f"output differs between two fresh compilations of the same schema ({dv['variant']})",
                     {"kind": "schemas", "label": label, "files": files, "main": main, "lang": t["lang"],
-                     "optimize": t["opt"], "variant": dv["variant"], "seeds": j["seeds"], "base_rc": t["rc"],
+                     "optimize": t["opt"], "variant": dv["variant"],
+                     "variant_means": VARIANT_DOC.get("seed" if dv["variant"].startswith("seed") else dv["variant"], ""),
+                     "decoys": j["decoys"], "seeds": j["seeds"], "base_rc": t["rc"],
                      "base": t["base"], "got_rc": dv["rc"], "got": dv["got"], "stderr": dv.get("stderr", "")},
                     found_input=True)
             for name, needle in t["leaks"]:
@@ -491,12 +620,17 @@ def run(ck: Check) -> None:
             rest = [s for s in repo_sets if s not in must and s not in enc]
             repo_sets = must + rng.sample(enc, k=min(5, len(enc))) + rng.sample(rest, k=min(4, len(rest)))
         sets.extend(repo_sets)
-        for i in range(ck.n(10, 100)):
+        for i in range(ck.n(8, 100)):
             r2 = random.Random(f"C18:{ck.seed}:s:{i}")
             params = sg.Params(allow_ext=False) if i % 3 == 0 else (
                 sg.Params(max_depth=4, max_fields=8) if i % 3 == 1 else sg.Params())
             s = sg.Gen(r2, params).schema()
             sets.append((f"gen#{i}", s.texts, s.main))
+        # import graphs over several directories, two of three with equal file / proto names in different directories
+        for i in range(ck.n(3, 30)):
+            r2 = random.Random(f"C18:{ck.seed}:g:{i}")
+            files, main = gen_import_graph(r2, dup=(i % 3 != 2))
+            sets.append((f"graph#{i}", files, main))
     stats = run_process_level(ck, sets, nvariants=ck.n(2, 6), group_size=4, methods=methods) if sets else {}
     evaluations += stats.get("compilations", 0) + stats.get("inproc_steps", 0) + stats.get("audit_compared", 0)
     _t(ck, "process_level")
@@ -506,8 +640,11 @@ def run(ck: Check) -> None:
     cov["rule"] = ("memo histories: random operation sequences over <= 9 nodes (alloc/setattr/push_member/freeze/call/"
                    "drop, 4 methods incl. a raising, an unconditionally cached and a self-recursive one; 4 of 5 respect "
                    "the parser's discipline) run on the real decorators, nontrivial = at least one hit and one miss; "
-                   "process level: every generated/example/tests schema x {c, go, py, c -O, go -O} x {fresh process "
-                   "with another PYTHONHASHSEED, path/cwd/outdir/-q variants}, then 2x repeated, shuffled in-process "
+                   "process level: every generated/example/tests schema and generated multi-directory import graphs (equal "
+                   "file/proto names in different directories, sibling imports) x {c, go, py, c -O, go -O} x {fresh "
+                   "process with 1-4 other PYTHONHASHSEEDs, path/cwd/outdir/-q variants, cwd = a directory holding DIFFERENT "
+                   "files under the imports' relative names, output directory pre-filled with empty files / a line-wise "
+                   "prefix / a longer version / garbage / the same output}, then 2x repeated, shuffled in-process "
                    "compilation in groups of 4 with a transparency audit of every memoised method on every AST node; "
                    "nontrivial = distinct output hashes")
     cov["tie"] = {
